@@ -26,6 +26,8 @@ func checkC03(c *fw.Ctx) {
 	checkHeadered(c)
 	checkV12Auth(c)
 	checkDerivedTypePreserved(c)
+	// a built event passes its own content-hash check (shared with C04.3)
+	checkHashProjection(c)
 }
 
 func checkReference(c *fw.Ctx) {
@@ -35,24 +37,36 @@ func checkReference(c *fw.Ctx) {
 		return
 	}
 	got, nonConst := removedKeys(fn)
-	c.Check(nonConst == 0 && sameSet(got, setOf("signatures", "unsigned")), rule, "the reference hash excludes exactly {signatures, unsigned}", c.P.Pos(fn.Pos()), "", "excluded members: "+strings.Join(sortedSet(got), ","))
-	for _, call := range fw.CallsTo(fn, false, fw.NameIs("crypto/sha256.Sum256")) {
-		s := fw.Sig(call.Common().Args[0])
-		ok := strings.HasPrefix(s, "gmsl.CanonicalJSON(encoding/json.Marshal(") && strings.HasSuffix(s, "#0)#0")
-		c.Check(ok, rule, "the reference hash input is CanonicalJSON(json.Marshal(event))", c.P.Pos(call.Pos()), "", "hash input is "+s)
+	if nonConst > 0 || len(got) == 0 {
+		c.Undecided(rule, "the reference hash excludes exactly {signatures, unsigned}", fmt.Sprintf("%d removal(s) not resolved to constant names, %d resolved", nonConst, len(got)))
+	} else {
+		c.Check(sameSet(got, setOf("signatures", "unsigned")), rule, "the reference hash excludes exactly {signatures, unsigned}", c.P.Pos(fn.Pos()), "", "excluded members: "+strings.Join(sortedSet(got), ","))
 	}
-	um := fw.CallsTo(fn, false, fw.NameIs("encoding/json.Unmarshal"))
-	okRed := false
-	for _, u := range um {
-		if s := fw.Sig(u.Common().Args[0]); containsAll(s, ".RedactEventJSON(", "param:eventJSON)#0") {
-			okRed = true
+	canonJSON := fw.NameIs("gmsl.CanonicalJSON")
+	for _, dc := range deepCallsTo(fn, fw.NameIs("crypto/sha256.Sum256")) {
+		use := dc.Call.(ssa.Instruction)
+		c.CheckDerives(dc.Call.Common().Args[0], dc.Fr, fw.FlowSpec{IsSource: fw.IsResultOf(canonJSON, 0), All: true, Use: use}, rule, "the reference hash input is CanonicalJSON(...)", c.P.Pos(dc.Call.Pos()), "", "the hashed bytes are not the result of CanonicalJSON")
+		for _, cj := range deepCallsTo(fn, canonJSON) {
+			c.CheckDerives(cj.Call.Common().Args[0], cj.Fr, fw.FlowSpec{IsSource: fw.IsResultOf(fw.NameIs("encoding/json.Marshal"), 0), All: true, Use: cj.Call.(ssa.Instruction)}, rule, "the canonicalised bytes are json.Marshal(event)", c.P.Pos(cj.Call.Pos()), "", "CanonicalJSON is not applied to the re-marshalled event")
 		}
 	}
-	c.Check(okRed, rule, "the hashed event is decoded from the redaction of the input", c.P.Pos(fn.Pos()), "", "no json.Unmarshal of RedactEventJSON(eventJSON)")
+	var fromRed []fw.Tri
+	um := deepCallsTo(fn, fw.NameIs("encoding/json.Unmarshal"))
+	for _, u := range um {
+		fromRed = append(fromRed, fw.Derives3In(u.Call.Common().Args[0], u.Fr, fw.FlowSpec{IsSource: fw.IsResultOf(redactName, 0), All: true, Use: u.Call.(ssa.Instruction)}))
+	}
+	checkTri(c, triBest(fromRed), rule, "the hashed event is decoded from the redaction of the input", c.P.Pos(fn.Pos()), "", "no json.Unmarshal of RedactEventJSON(eventJSON): the event that is hashed is decoded from something else")
 	// the redaction is the one of the room version passed in
-	for _, call := range fw.CallsTo(fn, false, redactName) {
-		s := fw.Sig(call.Common().Value)
-		c.Check(strings.Contains(s, "gmsl.GetRoomVersion(param:roomVersion)#0"), rule, "the redaction algorithm is the given room version's", c.P.Pos(call.Pos()), "", "redaction receiver is "+s)
+	for _, dc := range deepCallsTo(fn, redactName) {
+		recv := dc.Call.Common().Value
+		if !dc.Call.Common().IsInvoke() && len(dc.Call.Common().Args) > 0 {
+			recv = dc.Call.Common().Args[0]
+		}
+		t := fw.Derives3In(recv, dc.Fr, fw.FlowSpec{All: true, IsSourceIn: func(v ssa.Value, fr *fw.Frame) bool {
+			cl, idx := fw.CallOf(v)
+			return cl != nil && idx <= 0 && fw.CalleeName(cl) == "gmsl.GetRoomVersion" && isParamDeep(cl.Common().Args[0], fr, fn, 1)
+		}})
+		checkTri(c, t, rule, "the redaction algorithm is the given room version's", c.P.Pos(dc.Call.Pos()), "", "the redaction is not that of GetRoomVersion(roomVersion): receiver is "+fw.SigIn(dc.Fr, recv))
 	}
 	// 2. alphabet table
 	rule2 := "2 alphabet"
@@ -100,16 +114,18 @@ func checkReference(c *fw.Ctx) {
 			}
 			c.Check(okAll, rule2, r.global+" is selected by "+r.want, c.P.Pos(fw.InstrPos(u)), "", detail)
 		}
-		c.Check(found == 1, rule2, r.global+" is used exactly once", c.P.Pos(fn.Pos()), "", fmt.Sprintf("%d uses", found))
+		c.Expect(found >= 1, rule2, r.global+" is used for event IDs", c.P.Pos(fn.Pos()), "", fmt.Sprintf("%d uses found in the reference routine and its helpers", found))
 	}
 	// event format 1 reads the event_id member
 	okV1 := false
 	for _, u := range um {
-		if s := fw.Sig(u.Common().Args[0]); strings.Contains(s, `["event_id"]`) && strings.Contains(condsOf(u.Block()), ".EventFormat(") && strings.Contains(condsOf(u.Block()), " == 1)") {
+		s := fw.SigIn(u.Fr, u.Call.Common().Args[0])
+		facts := strings.Join(fw.DeepFacts(u.Fr, u.Call.Block()), " && ")
+		if strings.Contains(s, `["event_id"]`) && strings.Contains(facts, ".EventFormat(") && strings.Contains(facts, " == 1)") {
 			okV1 = true
 		}
 	}
-	c.Check(okV1, rule2, "event format 1 takes the ID from the event_id member", c.P.Pos(fn.Pos()), "", "no decode of event[\"event_id\"] under eventFormat == 1")
+	c.Expect(okV1, rule2, "event format 1 takes the ID from the event_id member", c.P.Pos(fn.Pos()), "", "no decode of event[\"event_id\"] under eventFormat == 1 was recognised")
 	// eventV2.EventID returns the reference's id and caches nothing else
 	if e := mustFunc(c, rule2, "(*eventV2).EventID"); e != nil {
 		ok := false
@@ -118,7 +134,7 @@ func checkReference(c *fw.Ctx) {
 				ok = true
 			}
 		}
-		c.Check(ok, rule2, "eventV2.EventID derives the ID from referenceOfEvent(eventJSON, roomVersion)", c.P.Pos(e.Pos()), "", "no return of referenceOfEvent(e.eventJSON, e.roomVersion).EventID")
+		c.Expect(ok, rule2, "eventV2.EventID derives the ID from referenceOfEvent(eventJSON, roomVersion)", c.P.Pos(e.Pos()), "", "no return of referenceOfEvent(e.eventJSON, e.roomVersion).EventID was recognised")
 	}
 }
 
@@ -133,36 +149,57 @@ func checkCtorSiblings(c *fw.Ctx) {
 			n++
 			untrusted := col == "newEventFromUntrustedJSONFunc"
 			withID := col == "newEventFromTrustedJSONWithEventIDFunc"
-			want := map[string]string{}
-			if untrusted {
-				want["eventJSON"] = "gmsl.CanonicalJSONAssumeValid("
-				want["roomVersion"] = ".Version(param:roomVersion)"
-			} else {
-				want["eventJSON"] = "param:eventJSON"
-				want["roomVersion"] = ".Version(param:roomVersion)"
-				want["redacted"] = "param:redacted"
+			// where each cached field must come from (provenance through helpers, three-valued)
+			type src struct {
+				what string
+				spec fw.FlowSpec
 			}
-			if withID {
-				want["EventIDRaw"] = "param:eventID"
-			}
-			for _, field := range fw.SortedKeys(want) {
-				stores := fw.FieldStores(fn, "eventV1", field)
-				ok := false
-				var sigs []string
-				for _, st := range stores {
-					s := fw.Sig(st.Val)
-					sigs = append(sigs, s)
-					if field == "eventJSON" && !untrusted {
-						ok = ok || s == want[field]
-					} else if strings.Contains(s, want[field]) {
-						ok = true
+			paramIdx := func(name string) int {
+				for i, p := range fn.Params {
+					if p.Name() == name {
+						return i
 					}
 				}
-				c.Check(ok, rule, fmt.Sprintf("%s initialises %s from %s", short, field, want[field]), c.P.Pos(fn.Pos()), strings.Join(sigs, " | "), fmt.Sprintf("field %s is set from [%s]", field, strings.Join(sigs, " | ")))
+				return -1
+			}
+			fromParam := func(name string) src {
+				return src{"the " + name + " parameter", fw.FlowSpec{All: true, IsSourceIn: isRootParam(fn, paramIdx(name))}}
+			}
+			versionOf := src{"Version() of the roomVersion parameter", fw.FlowSpec{All: true, IsSourceIn: func(v ssa.Value, fr *fw.Frame) bool {
+				cl, _ := fw.CallOf(v)
+				if cl == nil || !strings.HasSuffix(fw.CalleeName(cl), ".Version") {
+					return false
+				}
+				recv := cl.Common().Value
+				if !cl.Common().IsInvoke() && len(cl.Common().Args) > 0 {
+					recv = cl.Common().Args[0]
+				}
+				return isParamDeep(recv, fr, fn, paramIdx("roomVersion"))
+			}}}
+			want := map[string]src{"roomVersion": versionOf}
+			if untrusted {
+				want["eventJSON"] = src{"CanonicalJSONAssumeValid(...)", fw.FlowSpec{All: true, IsSource: fw.IsResultOf(fw.NameIs("gmsl.CanonicalJSONAssumeValid"), 0)}}
+			} else {
+				want["eventJSON"] = fromParam("eventJSON")
+				want["redacted"] = fromParam("redacted")
+			}
+			if withID {
+				want["EventIDRaw"] = fromParam("eventID")
+			}
+			for _, field := range fw.SortedKeys(want) {
+				var ts []fw.Tri
+				var sigs []string
+				for _, ds := range deepFieldStores(fn, "eventV1", field) {
+					sp := want[field].spec
+					sp.Use = ds.St
+					ts = append(ts, fw.Derives3In(ds.St.Val, ds.Fr, sp))
+					sigs = append(sigs, fw.SigIn(ds.Fr, ds.St.Val))
+				}
+				checkTri(c, triBest(ts), rule, fmt.Sprintf("%s initialises %s from %s", short, field, want[field].what), c.P.Pos(fn.Pos()), strings.Join(sigs, " | "), fmt.Sprintf("field %s is set from [%s]", field, strings.Join(sigs, " | ")))
 			}
 			if !withID {
 				// no constructor other than WithEventID may preset the cached ID
-				stores := fw.FieldStores(fn, "eventV1", "EventIDRaw")
+				stores := deepFieldStores(fn, "eventV1", "EventIDRaw")
 				c.Check(len(stores) == 0, rule, short+" does not preset the event ID", c.P.Pos(fn.Pos()), "", "EventIDRaw is written by a constructor that is not given an ID")
 			}
 			// room ID validated
@@ -446,11 +483,28 @@ func checkV12Auth(c *fw.Ctx) {
 					return a["hasAuth"] != "true", true
 				}
 			}
+			// a scan of the event's own auth list (e.g. "is the create event already listed?"):
+			// one iteration is described; an element exists iff the list is non-empty
+			if x, op, y, ok := parseCmp(atom); ok && op == "<" && strings.Contains(x, "phi(-1|") && strings.HasPrefix(y, "builtin.len(") && strings.Contains(y, "AuthEvents") {
+				return a["hasAuth"] == "true", true
+			}
+			if strings.HasPrefix(atom, "next(range(") && strings.Contains(atom, "AuthEvents") {
+				return a["hasAuth"] == "true", true
+			}
+			if l, r, ok := parseEq(atom); ok && strings.Contains(l+r, "AuthEvents[") && strings.Contains(l+r, `("$" + `) {
+				return a["listsCreate"] == "true", true
+			}
+			if strings.HasPrefix(atom, "slices.Contains(") && strings.Contains(atom, "AuthEvents") && strings.Contains(atom, `("$" + `) {
+				return a["listsCreate"] == "true", true
+			}
 			return false, false
 		}}
 		compareTable(c, rule, "eventV3.AuthEventIDs: empty for the create event, otherwise the create event id (\"$\"+room_id[1:]) first", fn, 0,
-			[]tvar{{"createType", boolv}, {"emptyStateKey", boolv}, {"hasAuth", boolv}}, ip,
+			[]tvar{{"createType", boolv}, {"emptyStateKey", boolv}, {"hasAuth", boolv}, {"listsCreate", boolv}}, ip,
 			func(a asg) string {
+				if a["listsCreate"] == "true" && a["hasAuth"] != "true" {
+					return "" // infeasible
+				}
 				if a["createType"] == "true" && a["emptyStateKey"] == "true" {
 					return "empty"
 				}
@@ -462,6 +516,12 @@ func checkV12Auth(c *fw.Ctx) {
 					return "empty"
 				case want:
 					return "create-first"
+				case "?":
+					// the event's own list handed back unchanged is definite; anything else is not understood
+					if strings.HasSuffix(fw.Sig(r.Val), ".AuthEvents") {
+						return "own-list-unchanged"
+					}
+					return "unknown"
 				default:
 					return "first=" + s
 				}
@@ -515,7 +575,7 @@ func checkV12Auth(c *fw.Ctx) {
 				okSkip = true
 			}
 		}
-		c.Check(okSkip, rule, "AddAuthEvents omits exactly \"$\"+room_id[1:] for domainless room ids", c.P.Pos(fn.Pos()), "", "no comparison of a reference with \"$\"+RoomID[1:] under DomainlessRoomIDs()")
+		c.Expect(okSkip, rule, "AddAuthEvents omits exactly \"$\"+room_id[1:] for domainless room ids", c.P.Pos(fn.Pos()), "", "no comparison of a reference with \"$\"+RoomID[1:] under DomainlessRoomIDs() was recognised")
 	}
 }
 
